@@ -400,6 +400,16 @@ theorem instOk_setDict (s : St) (h1 h2 : List Param) (c : CId) (n : Name) (p : P
     (fun c' => by rw [e1, ← f1]; exact mroOf_clear_setDict s c n p c')
     (fun k m hk => by rw [e2, ← f2]; exact clsDict_clear_setDict_mono s c n p k m hk) h
 
+theorem clsDict_clear_setDict_self (s : St) (c : CId) (n : Name) (p : PId) (k : Cls) (hk : s.classes[c]? = some k) :
+    clsDict (clearDesc (setDict s c n p) c) c = aset k.dict n p := by
+  have hlt : c < s.classes.length := by
+    rcases Nat.lt_or_ge c s.classes.length with h' | h'
+    · exact h'
+    · rw [List.getElem?_eq_none_iff.2 h'] at hk; cases hk
+  unfold clearDesc setDict clsDict
+  simp only [hk, List.getElem?_map, List.getElem?_set, hlt, if_true, Option.map_some]
+  split <;> rfl
+
 theorem instantiated_classes {s s1 : St} {i : IId} {x : Inst} {n : Name} {p ip : PId}
     (h : instantiated s i x n p = .ok (s1, ip)) : s1.classes = s.classes := by
   unfold instantiated at h
